@@ -1164,6 +1164,15 @@ def register_all(M):
             if len(x.items) != len(y.items):
                 return False
             return z_and([elem_eq(c, p, q) for p, q in zip(x.items, y.items)])
+        if isinstance(x, SymOpt) or isinstance(y, SymOpt):
+            # an option whose presence is symbolic: equal ⇔ both absent, or both present with equal payloads
+            if not (isinstance(x, Agg) and isinstance(y, Agg)):
+                raise Unsupported("equality of %r and %r" % (x, y))
+            sx, sy = to_symopt(x), to_symopt(y)
+            both = z_and([sx.present.v, sy.present.v])
+            neither = z_and([z_not(sx.present.v), z_not(sy.present.v)])
+            inner = elem_eq(c, sx.fields[0], sy.fields[0]) if sx.fields[0] is not None and sy.fields[0] is not None else False
+            return z_or([neither, z_and([both, inner])])
         if isinstance(x, MapBuf) and isinstance(y, MapBuf):
             # keys are pairwise distinct in each map: equal ⇔ same size and every entry of x is an entry of y
             if len(x.entries) != len(y.entries):
